@@ -252,6 +252,8 @@ def refine_line(rnd, info, allow_scale=True):
 
 
 BAD_ANY = ["make_dims0", "make_outs_neg", "make_depth_neg", "make_rule_seq", "make_rule_local", "make_order",
+           "make_global_rule_none", "make_global_rule_localp", "make_global_rule_wavelet", "make_global_rule_fourier", "make_seq_rule_none",
+           "make_seq_rule_cc", "make_seq_rule_localp", "make_local_rule_none", "make_local_rule_cc", "make_local_rule_wavelet",
            "make_wavelet_order", "make_aw_size", "make_ll_size", "make_aw_ok_ll_bad", "make_local_ll_size", "make_wavelet_ll_size",
            "make_fourier_aw_size", "read_missing", "read_garbage", "read_future",
            "read_unknown_type", "read_trunc_asc", "read_trunc_bin", "read_bin_garbage"]
@@ -664,6 +666,15 @@ def run_grid(ctx, scen_sets, obs_mask, prop, chunk=None, timeout=240, variant="h
             names = [req_name(x) for x in rj["raw_req"]] or ([rj["invariant"]] if rj["invariant"] else ["truncated"])
             name = names[0]
             owner = attribute(name, ev.get("e", "?"), ev, (rj["raw_req"] or [""])[0]) if name != "truncated" else prop
+            # an event may fail several requirements at once (e.g. the nodal observation and the route identities): the running
+            # check reports it if it owns any of them, under that requirement's name
+            if owner != prop and len(names) > 1:
+                for nm, raw in zip(names[1:], rj["raw_req"][1:]):
+                    if attribute(nm, ev.get("e", "?"), ev, raw) == prop:
+                        name, owner = nm, prop
+                        rj = dict(rj)
+                        rj["raw_req"] = [raw] + [r for r in rj["raw_req"] if r is not raw]
+                        break
             if ev.get("r") == "timeout":
                 owner = "C08"       # a refinement / update call that does not return
             if rj["invariant"] == "TLimits":
